@@ -96,4 +96,62 @@ PROPS['C10'] = {
                   'recorded draws), exact-rational floats. Bit-identity of arrays is an implementation-side check.',
 }
 
+ARR_FUNCS = ['vflip', 'hflip', 'zflip', 'random_flip', 'transpose', 'rot90', '_pad', 'pad_with_params', 'pad',
+             'cutout', 'random_crop', 'center_crop', 'crop', 'clamping_crop']
+BOX_FUNCS = ['bbox_vflip', 'bbox_hflip', 'bbox_zflip', 'bbox_flip', 'bbox_transpose', 'bbox_rot90',
+             'normalize_bbox', 'denormalize_bbox', 'crop_bbox_by_coords', 'bbox_random_crop', 'bbox_center_crop',
+             'bbox_crop', 'crop_and_pad_bbox', 'get_random_crop_coords', 'get_center_crop_coords']
+KP_FUNCS = ['keypoint_vflip', 'keypoint_hflip', 'keypoint_zflip', 'keypoint_flip', 'keypoint_transpose',
+            'keypoint_rot90', 'keypoint_scale', 'crop_keypoint_by_coords', 'keypoint_random_crop',
+            'keypoint_center_crop', 'crop_and_pad_keypoint', 'filter_keypoints', 'angle_to_2pi_range']
+GEOM_TRUSTED = ['model/Arrays.v (NumPy slicing / reversal / transpose / rot90 / pad / slice assignment as index maps) is '
+                'hand-written and trusted, validated voxel-by-voxel against NumPy on index-labelled volumes on every run',
+                'model/Lattice.v descriptors are the specification of the documented voxel maps',
+                'class methods are translated with the keyword binding of BasicTransform.apply_with_params made '
+                'explicit (parameter-dict keys read from get_params*/update_params literals)']
+
+PROPS['C02'] = {
+    'requires': BOX_FUNCS, 'corr': corr_multi(corr_fn('C02', BOX_FUNCS, 30, 800), corr_fn('C02a', ARR_FUNCS, 25, 500)),
+    'search': 'C02', 'trusted_base': GEOM_TRUSTED,
+    'assumptions': ['frame extents positive', 'resampling and free-rotation clauses are checked on the implementation '
+                    'by the search oracle only (SciPy resampling is not modelled)'],
+    'level_text': 'For flips, Flip, Transpose, RandomRotate90 (all planes and factors), PadIfNeeded and crop windows the box '
+                  'path and the voxel path are proved to follow one lattice descriptor, for every real-valued box and '
+                  'every frame shape; the resize/rotate clauses are explored on the implementation with the stated bounds.',
+    'level_note': 'Trusted: Coq kernel, translator, Arrays.v NumPy model (validated), exact rationals. '
+                  'Resampling transforms: search oracle only (partial).',
+}
+PROPS['C03'] = {
+    'requires': KP_FUNCS, 'corr': corr_multi(corr_fn('C03', KP_FUNCS, 30, 800), corr_fn('C03a', ARR_FUNCS, 15, 300)),
+    'search': 'C03', 'trusted_base': GEOM_TRUSTED + ['angle table lat_angle: direction vector (cos a, sin a) under the xy '
+                                                    'part of the descriptor (specification)'],
+    'assumptions': ['quarter turns in planes containing z keep the in-plane angle (library convention, DESIGN 7)'],
+    'level_text': 'Keypoint position, angle (mod 2pi, always in [0,2pi)) and scale are proved to follow the same lattice '
+                  'descriptor as the voxels for flips, Flip, Transpose, RandomRotate90 and PadIfNeeded, and the '
+                  'visibility filter is proved to keep exactly the in-frame keypoints in order; resampling / rotation '
+                  'bounds are explored on the implementation.',
+    'level_note': 'Trusted: as C02. Resampling transforms: search oracle only (partial).',
+}
+PROPS['C01'] = {
+    'requires': ARR_FUNCS, 'corr': corr_fn('C01', ARR_FUNCS, 40, 900), 'search': 'C01', 'trusted_base': GEOM_TRUSTED,
+    'assumptions': ['SciPy resampling (zoom / affine_transform) is not modelled: those transforms are covered by the '
+                    'search oracle with nearest interpolation'],
+    'level_text': 'For the lattice classes the mask path is proved identical to the image path (inherited path = image '
+                  'path with interpolation 0, regenerated from DualTransform.apply_to_mask) or to share offsets and '
+                  'shape with it (PadIfNeeded); masks / additional targets and resampling transforms are explored on '
+                  'labelled volumes.',
+    'level_note': 'Trusted: as C02; target dispatch (masks list, additional targets) is checked on the implementation.',
+}
+PROPS['C07'] = {
+    'requires': ARR_FUNCS + ['get_random_crop_coords', 'get_center_crop_coords'],
+    'corr': corr_multi(corr_fn('C07', ARR_FUNCS, 40, 900), corr_fn('C07b', ['get_random_crop_coords', 'get_center_crop_coords'], 60, 1500)),
+    'search': 'C07', 'trusted_base': GEOM_TRUSTED,
+    'assumptions': ['target-size arithmetic of the SciPy-based resizes is explored, not proved'],
+    'level_text': 'Flips, transpose, quarter turns, crop windows (inside the volume and of the requested size for every '
+                  'draw in [0,1)), centre crop and constant padding are theorems about the generated image paths for '
+                  'every input view; resize family sizes, PadIfNeeded positions and channel layout are explored against '
+                  'NumPy references.',
+    'level_note': 'Trusted: as C02.',
+}
+
 NOT_CLAIMED = {}
